@@ -169,11 +169,38 @@ pub fn read<const N: usize, Ns>(reader: impl Read) -> Result<Mappings<N, Ns>> {
 	Ok(mappings)
 }
 
+/// The characters that are written escaped in comments: the backslash itself (otherwise a
+/// backslash followed by `n` reads back as a line break), and the characters that end a field or
+/// a line (or get stripped at the end of a line).
+const ESCAPES: [(char, char); 4] = [('\\', '\\'), ('\n', 'n'), ('\r', 'r'), ('\t', 't')];
+
 pub(crate) fn unescape(s: String) -> String {
-	s.replace("\\n", "\n")
+	let mut out = String::with_capacity(s.len());
+	let mut chars = s.chars().peekable();
+	while let Some(c) = chars.next() {
+		if c == '\\' {
+			if let Some(&(raw, _)) = chars.peek().and_then(|&e| ESCAPES.iter().find(|x| x.1 == e)) {
+				chars.next();
+				out.push(raw);
+				continue;
+			}
+		}
+		// everything else is kept, including a backslash that doesn't start an escape sequence
+		out.push(c);
+	}
+	out
 }
 pub(crate) fn escape(s: &str) -> String {
-	s.replace('\n', "\\n")
+	let mut out = String::with_capacity(s.len());
+	for c in s.chars() {
+		if let Some(&(_, e)) = ESCAPES.iter().find(|x| x.0 == c) {
+			out.push('\\');
+			out.push(e);
+		} else {
+			out.push(c);
+		}
+	}
+	out
 }
 
 fn add_comment(javadoc: &mut Option<JavadocMapping>, line: TinyLine) -> Result<()> {
